@@ -78,6 +78,10 @@ func runExtraOps(em *emitter, dir, wdir string, c Case, conc *world.Conc, cseed 
 	if ops["eval"] {
 		em.emit(evalEvent{Ev: "Eval", Obs: run.EvalAPI(wdir, w, conc, cseed, 40)})
 	}
+	if ops["exposure"] && !hasAdmin(w) {
+		obs, _, _ := run.List(wdir, w, conc, run.ListOpts{Exposure: true})
+		em.emit(listEvent{Ev: "List", Opts: listOptsJSON{Exposure: true}, Obs: obs})
+	}
 	if ops["focus"] {
 		cands := []string{"nosuch", "ingress-controller"}
 		for i := range w.Workloads {
